@@ -113,7 +113,7 @@ func randMetricFV(r *rand.Rand) any {
 	das := pickSome(r, keysOf(attrReps["dp"]), r.Intn(5)) // distinct attribute sets: one point each
 	for _, da := range das {
 		fv.Dps = append(fv.Dps, DPFV{Da: da, Start: one(r, rTimes), Time: one(r, rTimes), Val: randVal(r, isInt),
-			Cnt: one(r, keysOf(cntReps)), Lay: one(r, []string{"L1", "L2", "L3", "L4"}), Mm: one(r, keysOf(mmReps)),
+			Cnt: one(r, keysOf(cntReps)), Lay: one(r, keysOf(histLays)), Mm: one(r, keysOf(mmReps)),
 			Q: one(r, keysOf(qReps)), Ex: randExemplars(r, isInt)})
 	}
 	return fv
